@@ -75,8 +75,11 @@ func (n *zzNode) menuBlock(m *zzMenuTx, a1Signed bool) *zzBlockOut {
 	}
 	n.begin(0, votes, nil)
 	if m != nil && m.kind != 0 {
+		if n.beforeTx != nil {
+			n.beforeTx()
+		}
 		r := n.deliver(m.build(n))
-		out.codes, out.gasUsed = append(out.codes, r.Code), append(out.gasUsed, r.GasUsed)
+		out.codes, out.gasUsed, out.data = append(out.codes, r.Code), append(out.gasUsed, r.GasUsed), append(out.data, r.Data)
 	}
 	e := n.app.EndBlock(abcitypes.RequestEndBlock{Height: n.height})
 	out.ups = e.ValidatorUpdates
@@ -97,8 +100,11 @@ func (n *zzNode) menuBlock2(m1, m2 *zzMenuTx, a1Signed bool) *zzBlockOut {
 	n.begin(0, votes, nil)
 	for _, m := range []*zzMenuTx{m1, m2} {
 		if m != nil && m.kind != 0 {
+			if n.beforeTx != nil {
+				n.beforeTx()
+			}
 			r := n.deliver(m.build(n))
-			out.codes, out.gasUsed = append(out.codes, r.Code), append(out.gasUsed, r.GasUsed)
+			out.codes, out.gasUsed, out.data = append(out.codes, r.Code), append(out.gasUsed, r.GasUsed), append(out.data, r.Data)
 		}
 	}
 	e := n.app.EndBlock(abcitypes.RequestEndBlock{Height: n.height})
@@ -209,10 +215,10 @@ func zzSameValSet(a, b map[string]int64, tag string) {
 func ZZ_C07_R2() {
 	govp := ctrlertypes.Test1GovParams()
 	a := zzNewGenesisBanded(3, 1, govp).start()
-	h := int64(9 + zzverif.Choose("restart.height", 4))
+	h := []int64{2, 9, 10, 11, 12}[zzverif.Choose("restart.height", 5)]
 	a.emptyBlock(0) // block 1 carries no commit info
-	a.emptyBlock(0)
 	var last *zzBlockOut
+	last = a.menuBlock(nil, true) // block 2 (announces the genesis validator set)
 	for a.height < h {
 		last = a.menuBlock(nil, true)
 	}
